@@ -281,6 +281,15 @@ def gen_authurls(tier, rng):
                          ["S:" + C.tb("s" + ch + "c")] + (["E:%s:%s" % (C.tb("k" + ch), C.tb(ch))]) + ["R:" + C.tb("code" + ch)])
         if l:
             out.append((l, "single-character"))
+    # one blank / control / non-ASCII character at either end of every caller string (client id, state, scope, response
+    # type, extra name and value): nothing is trimmed or filtered on its way into the URL
+    for ai, aff in enumerate(["\n", "\r", "\r\n", "\t", " ", "\x00", "\u00a0", "\u3000", "\u2028", "\ufeff", "\x0b", "\x1f", "\x7f", "é", "ß", "\U0001F600"]):
+        for side in (0, 1):
+            w = (lambda x: aff + x) if side == 0 else (lambda x: x + aff)
+            l = authurl_line(AUTH_ENDPOINTS[(ai + side) % len(AUTH_ENDPOINTS)], w("client"), None, w("state"),
+                             ["S:" + C.tb(w("sc")), "E:%s:%s" % (C.tb(w("k")), C.tb(w("v"))), "R:" + C.tb(w("code")), "SS:" + C.tlist([w("a"), w("b")])])
+            if l:
+                out.append((l, "affix"))
     for url in AUTH_ENDPOINTS:
         for defred in (None, "https://client/cb?x=1"):
             for ops in fixed:
